@@ -3,7 +3,7 @@ package main
 func init() {
 	register(&propInfo{
 		ID:          "C01",
-		Explanation: "Decides necessary structural conditions of the round trip, not the round trip itself: (T.reg) every RegisterCodec row attaches a codec to a Go type whose size and identity equal the memory type the codec's methods reinterpret ptr as; (T.mem) Omit/Read/Size/Append of each codec agree on that memory type; (T.kind) each reflect.Kind clause of CodecForTypeRegistry maps named types to the basic type of the same kind and every registered basic kind has a clause; (T.omit0) every Omit is a disjunction of zero tests so omission can only drop a zero value; (T.slicewrap) the slice wrapper is chosen by element wire type as documented.",
+		Explanation: "Decides necessary structural conditions of the round trip, not the round trip itself: (T.reg) every RegisterCodec row attaches a codec to a Go type whose size and identity equal the memory type the codec's methods reinterpret ptr as; (T.mem) Omit/Read/Size/Append of each codec agree on that memory type; (T.kind) each reflect.Kind clause of CodecForTypeRegistry maps named types to the basic type of the same kind and every registered basic kind has a clause; (T.omit0) every Omit is a disjunction of zero tests so omission can only drop a zero value; (T.slicewrap) the slice wrapper is chosen by element wire type as documented. (X.tightguard) the count and length rejections accepted as bound checks reject only what cannot fit; (S.spec, proto-mode codecs) the writers whose readers take an empty body for zero/absent keep to the documented shape.",
 		NotDecided:  "Equality of decoded and original values for all types and values (runtime values; no sound static bound in reach); pointer/slice/map composition; boundary values.",
 		Assumptions: []string{"A1", "A5"},
 		Run: func(c *Ctx) {
@@ -29,6 +29,9 @@ func init() {
 			// a value whose encoding the reader turns away, skips or does not store does not come back
 			ruleRepeatedNesting(c)
 			ruleRejects(c, decodeBound(c.P), nil)
+			// the length/count rejections X.rejects accepts as bound checks reject only what cannot fit
+			ruleTightGuards(c, decodeBound(c.P), nil)
+			c.Floor("X.tightguard", 20)
 			ruleVarSize(c)
 			ruleScalarStore(c)
 			ruleDispatchKnown(c)
@@ -38,6 +41,9 @@ func init() {
 			// necessary condition of the round trip (the reader slices the body by that length)
 			ruleSizeLaw(c)
 			ruleFrame(c)
+			// the proto-mode codecs' readers take an empty body for the zero value / an absent entry: the writers
+			// must keep to the documented shape (a Timestamp always carries its fields, an entry its key and value)
+			ruleProtoGrammar(c)
 			ruleEmitLemmas(c)
 			// a value decoded into uncleared scratch or a re-used slot is not the value that was encoded
 			ruleClearBeforeRead(c)
